@@ -266,6 +266,13 @@ def shapes(rnd, tier='quick'):
     for en in ('a.b', '__x', 'foo-bar', 'a__b_', 'x y.z', 'h\u00e9', 'X', 'aX2Eb', '_', 'e.'):
         out.append(('namerel-%s' % ''.join(ch if ch.isalnum() else '_' for ch in en), name_relations(en)))
     out.append(('all-constructs', all_constructs()))
+    # the threads-proposal instructions in expression context (modules of the C16 / C17 probes): the translator must survive them too
+    try:
+        from checks import c17 as _c17, c16 as _c16
+        out.append(('threads-wait-notify-in-expressions', _c17.build_module()))
+        out.append(('threads-atomics-all-flavours', _c16.build_module(True)[0]))
+    except ImportError:
+        pass
     # names of NON-function imports are passed to the resolver as C strings: conversion specifications, quotes, backslashes, trigraph-like text
     pm = Module()
     for i, nm in enumerate(['100%sure%n%n%s%s%s%s', '%d%d%d%d%d%d%d%d%d%d%n', 'q"uote', 'back\\slash', '??/', '%', 'a%5$s']):
